@@ -141,9 +141,13 @@ type regionFinding struct {
 
 // regionFindings applies R5.8 to one skeleton:
 // (a) an expression evaluated (or a value registered) in a block that lies on a generated cycle must run in a scope that
-//     is exited on that cycle - otherwise the temporaries it creates are released once but created per iteration;
+//
+//	is exited on that cycle - otherwise the temporaries it creates are released once but created per iteration;
+//
 // (b) the block must dominate every block where that scope is exited (for the ambient scope: the block current when the
-//     visitor returns) - otherwise the exit releases temporaries that were never created on the path taken.
+//
+//	visitor returns) - otherwise the exit releases temporaries that were never created on the path taken.
+//
 // Statement children whose static type is *ast.BlockStmt open their own scope (R5.8c) and are exempt.
 func regionFindings(s *skel) (checked []string, out []regionFinding) {
 	exits := map[*Obj]map[int]bool{}
